@@ -32,13 +32,13 @@ def compare_with_truth(chk, logger, expected, tbl, unresolved, case):
     got = logger.traces
     if len(got) != len(exp):
         chk.fail("count", dict(case, detail="%d traces logged, %d calls of resolvable functions completed" % (len(got), len(exp)),
-                               logged=[t.func.__qualname__ for t in got][:40], completed=[e["qualname"] for e in exp][:40]))
+                               logged=[t.func.__code__.co_qualname for t in got][:40], completed=[e["qualname"] for e in exp][:40]))
         return
     ct = lambda x: None if x is None else sexp.dumps(tyconv.canon(tyconv.ty_to_tree(x, tbl)))
     for i, (t, e) in enumerate(zip(got, exp)):
         bad = []
-        if t.func.__qualname__ != e["qualname"]:
-            bad.append("attributed to %s, completed call was %s" % (t.func.__qualname__, e["qualname"]))
+        if t.func.__code__.co_qualname != e["qualname"]:
+            bad.append("attributed to %s, completed call was %s" % (t.func.__code__.co_qualname, e["qualname"]))
         else:
             ga = {n: ct(v) for n, v in t.arg_types.items() if n not in IGNORED_PARAMS}
             if ga != e["args"]:
@@ -100,7 +100,7 @@ def run(pid, tier, seed):
                 return sexp.dumps(tyconv.canon(("union",) + tuple(sexp.loads(t) for t in trees)))
             compare_with_truth(chk, logger, expected_from_recorder(rec, tbl, union), tbl, unresolved, case)
             for t in logger.traces:
-                q = t.func.__qualname__
+                q = t.func.__code__.co_qualname
                 chk.count("logged." + ("generator" if t.yield_type is not None else "raised" if t.return_type is None else "returned"))
                 if t.yield_type is not None or t.return_type is None or "<locals>" in q or q in ("recur", "coro", "coro_raise", "K.over"):
                     chk.nontriv(sexp.dumps(tracerun.trace_tree(t, tbl, ft)))
